@@ -474,6 +474,7 @@ func Family(name string, tier string) []*Scenario {
 			}
 		}
 		out = append(out, doubleSkipSix(thorough)...)
+		out = append(out, bufferedFaults(thorough)...)
 		out = append(out, retryWithOtherFault(thorough)...)
 		out = append(out, runThenExtend(thorough)...)
 		out = append(out, sharedSaturated(thorough)...)
